@@ -168,6 +168,17 @@ def replay(case):
         r = guard.call(fg.get_parse_tree, list(w), timeout=3.0)
         if r[0] == "ok":
             evs.append(tree_event("fcfg_tree", G, G, w, r[1]))
+    if case.get("clash"):
+        # the same productions with variables spelled like the terminals (Variable("a") next to Terminal("a")): only the
+        # Earley parser is asked (the other parsers are not claimed on such grammars)
+        gc, _, _ = cfgh.make(case["prods"], "clash", case["tpool"])
+        Gc = cfgh.project(gc)
+        fprods = [FeatureProduction(p.head, p.body, FeatureStructure(), [FeatureStructure() for _ in p.body]) for p in gc.productions]
+        for w in words:
+            fg = FCFG(start_symbol=gc.start_symbol, productions=set(fprods))
+            r = guard.call(fg.get_parse_tree, list(w), timeout=3.0)
+            if r[0] == "ok":
+                evs.append(tree_event("fcfg_tree", Gc, Gc, w, r[1]))
     return evs
 
 
